@@ -1,12 +1,12 @@
 /-
-  AITB.Props.C03Basic — algebra of the belief-MDP operator of AITB.Model.POMDP: linearity of the unnormalised belief update,
+  AITB.Props.C03Basic — algebra of the belief-MDP operator of AITB.Model.POMDP3: linearity of the unnormalised belief update,
   conservation of mass, monotonicity of `Hop`, sublinearity (convex + positively homogeneous) is preserved by `Hop`.
 -/
-import AITB.Model.POMDP
+import AITB.Model.POMDP3
 import AITB.Props.C01
 import Mathlib.Tactic.Positivity
 
-namespace AITB.POMDP
+namespace AITB.POMDP3
 open AITB.MDP
 
 /-- the tables describe a discounted POMDP -/
@@ -172,4 +172,4 @@ theorem iterH_mono (m : POMDP) (hv : Valid m) (V W : (Nat → Rat) → Rat) (h :
   | zero => exact h
   | succ k ih => intro x hx; exact Hop_mono m hv _ _ ih x hx
 
-end AITB.POMDP
+end AITB.POMDP3
